@@ -143,7 +143,7 @@ var others = sync.OnceValues(func() (renderings, renderings) {
 })
 
 func check(t tcase) *mc.Failure {
-	return mc.Guard(func() *mc.Failure {
+	return mc.GuardT("formats", t, func() *mc.Failure {
 		r := build(t)
 		fi := fileInfo(t.FI)
 		if len(r.chunks) == 0 {
